@@ -40,6 +40,7 @@ CONSTANTS Progs,            \* program ids
           MaxLines,         \* bound on lines written/offered
           MaxLoads,         \* bound on load attempts
           MaxStamp,         \* content stamps 1..MaxStamp
+          DirectInput,      \* lines may be offered directly on the runtime's input channel
           DEV_RegisterErrorNotCounted,
           KeepLast          \* TRUE: `last` describes the last action (trace validation)
 
@@ -54,7 +55,7 @@ VARIABLES fileq,   \* [Files -> Seq(LineKinds)]  appended to the log, not yet re
           tq,      \* [Files -> Seq(LineKinds)]  counted by the reader, being sent towards the runtime
           inq,     \* Seq(LineKinds)             offered directly to the runtime's input (no tailer)
           fan,     \* [busy, lk, todo]           the fan-out loop: line in hand, programs still to send to
-          vmst,    \* [Progs -> [busy, lk, errs]] the running VM of each program
+          vmst,    \* [Progs -> [busy, k, lk, errs]] the running VM of each program (k: kind of the version in the line)
           src,     \* [Progs -> [k, stamp]]      running version, k = "none" if not loaded
           reg,     \* kind under which the metric name Shared is registered in the store
           ld,      \* the loader: [pc, p, k, stamp, res]
@@ -75,7 +76,7 @@ LdIdle == [pc |-> "idle", p |-> 0, k |-> "none", stamp |-> 0, res |-> ""]
 
 Init == /\ fileq = [f \in Files |-> <<>>] /\ tq = [f \in Files |-> <<>>] /\ inq = <<>>
         /\ fan = [busy |-> FALSE, lk |-> "num", todo |-> {}]
-        /\ vmst = [p \in Progs |-> [busy |-> FALSE, lk |-> "num", errs |-> 0]]
+        /\ vmst = [p \in Progs |-> [busy |-> FALSE, k |-> "none", lk |-> "num", errs |-> 0]]
         /\ src = [p \in Progs |-> [k |-> "none", stamp |-> 0]]
         /\ reg = "none"
         /\ ld = LdIdle
@@ -108,7 +109,7 @@ ReadCount(f) ==
 
 \* the environment offers a line directly on the runtime's input channel (runtime-only binding)
 Offer(lk) ==
-  /\ Files = {} /\ nlines < MaxLines /\ nlines' = nlines + 1
+  /\ DirectInput /\ nlines < MaxLines /\ nlines' = nlines + 1
   /\ inq' = Append(inq, lk)
   /\ hist' = [hist EXCEPT !.offered = @ + 1]
   /\ last' = Act("Offer", 0, 0, lk)
@@ -138,7 +139,7 @@ RecvDirect ==
 Deliver(p) ==
   /\ fan.busy /\ p \in fan.todo /\ ~vmst[p].busy
   /\ fan' = [fan EXCEPT !.todo = @ \ {p}]
-  /\ vmst' = [vmst EXCEPT ![p] = [busy |-> TRUE, lk |-> fan.lk, errs |-> 0]]
+  /\ vmst' = [vmst EXCEPT ![p] = [busy |-> TRUE, k |-> src[p].k, lk |-> fan.lk, errs |-> 0]]
   /\ last' = Act("Deliver", p, 0, fan.lk)
   /\ UNCHANGED <<fileq, tq, inq, src, reg, ld, ctr, hist, nlines, nloads>>
 \* RUnlock: the loop over the handles is over
@@ -150,7 +151,7 @@ FanDone ==
 
 \* vm.go errorf: ProgRuntimeErrors.Add(v.name, 1); the line is abandoned (terminate)
 VmError(p) ==
-  /\ vmst[p].busy /\ vmst[p].errs = 0 /\ Raises(src[p].k, vmst[p].lk)
+  /\ vmst[p].busy /\ vmst[p].errs = 0 /\ Raises(vmst[p].k, vmst[p].lk)
   /\ ctr' = [ctr EXCEPT !.rt_errors = Inc(@, p)]
   /\ vmst' = [vmst EXCEPT ![p].errs = 1]
   /\ last' = Act("VmError", p, 0, "")
@@ -158,8 +159,8 @@ VmError(p) ==
 \* ProcessLogLine returns: by the semantics of the program the line raised an error or did not
 VmEnd(p) ==
   /\ vmst[p].busy
-  /\ (Raises(src[p].k, vmst[p].lk) => vmst[p].errs = 1)
-  /\ hist' = IF Raises(src[p].k, vmst[p].lk) THEN [hist EXCEPT !.raised = Inc(@, p)] ELSE hist
+  /\ (Raises(vmst[p].k, vmst[p].lk) => vmst[p].errs = 1)
+  /\ hist' = IF Raises(vmst[p].k, vmst[p].lk) THEN [hist EXCEPT !.raised = Inc(@, p)] ELSE hist
   /\ vmst' = [vmst EXCEPT ![p].busy = FALSE]
   /\ last' = Act("VmEnd", p, 0, "")
   /\ UNCHANGED <<fileq, tq, inq, fan, src, reg, ld, ctr, nlines, nloads>>
@@ -173,7 +174,7 @@ LdBegin(p, k, s) ==
   /\ ld.pc = "idle" /\ nloads < MaxLoads /\ nloads' = nloads + 1
   /\ VmIdle(p)                              \* C20 covers loads racing with line processing
   /\ ld' = [pc |-> "open", p |-> p, k |-> k, stamp |-> s, res |-> ""]
-  /\ last' = Act("LdBegin", p, 0, k)
+  /\ last' = Act("LdBegin", p, s, k)          \* (the f slot carries the stamp)
   /\ UNCHANGED <<fileq, tq, inq, fan, vmst, src, reg, ctr, hist, nlines>>
 \* os.OpenFile fails: ProgLoadErrors.Add(name, 1); return error
 LdOpen ==
@@ -228,6 +229,7 @@ LdCount ==
 \* Lock; close(old); handles[name] = new; go Run; Unlock                      -> rt.load.swapped
 LdSwap ==
   /\ ld.pc = "swap" /\ ~fan.busy
+  /\ VmIdle(ld.p)                           \* corrected design of C20: the old VM has left its line
   /\ src' = [src EXCEPT ![ld.p] = [k |-> ld.k, stamp |-> ld.stamp]]
   /\ ld' = [ld EXCEPT !.pc = "ret", !.res = "loaded"]
   /\ last' = Act("LdSwap", ld.p, 0, "")
